@@ -227,7 +227,7 @@ func IsAggregateName(name string) bool {
 		name = name[:len(name)-1]
 	}
 	switch name {
-	case "g", "cnt", "eg", "first":
+	case "g", "cnt", "eg", "first", "gre":
 		return true
 	}
 	return false
